@@ -13,7 +13,8 @@ EXPLANATION = ('Bounded model checking of grader OBJECTS on the real code: every
                'message) what a FRESHLY constructed grader returns for the effective expect given by a small reference state machine (configured '
                'answers ignore expect; otherwise the current expect, else the last successfully supplied one). Around every sequence the author\'s '
                'configuration objects, the default variable/function/suffix tables, MathArray._negative_powers, numpy error settings, registered '
-               'class defaults and a bystander grader are snapshotted and compared.')
+               'class defaults and a bystander grader are snapshotted and compared.'
+               ' An expect that passes the schema and fails the post-schema validation; failing calls of every kind (recursion depth, parse error, evaluation error) followed by a fresh string on ANOTHER grader sharing the process-wide parser.')
 ASSUMPTIONS = ['state is discrete: the claim is exhaustive within the sequence bound', 'FormulaGrader verdicts are compared as ok/grade classes (samples are fresh per call)']
 BOUNDS = {'quick': 'all sequences of length <= 3 over 12 events for String/Formula graders, length <= 2 for Numerical/Matrix/SingleList, with and without configured answers, debug on/off',
           'thorough': 'length <= 4 for String/Formula, <= 3 for the others'}
